@@ -172,12 +172,59 @@ def base_case(prog, runs, rng, **kw):
     return c
 
 
+def input_start_carrier(rng):
+    """The INPUT node is the start node of a recurrent subgraph; the destination asks for an iteration with a payload,
+    then for one with payload None (the input node has to run without additional_data again), then finishes."""
+    def N(i, **kw):
+        d = {'id': i, 'mode': rng.choice(gen.ALL_MODES), 'params': [], 'kind': 'plain', 'plan': {}}
+        d.update(kw)
+        return d
+    nodes = {'N0': N('N0', plain_params=['x'], start_of=True),
+             'N2': N('N2', params=[['a', ['in', 'N0']]]),
+             'N3': N('N3', params=[['a', ['in', 'N2']]], kind='dest', recurrent=True,
+                     plan={'start': 'N0', 'ad_script': rng.choice([{'0': ['next', 'ok'], '1': ['next_none']},
+                                                                   {'0': ['next', 'next', 'ok'], '1': ['next_none', 'next_none']},
+                                                                   {'0': ['next_none', 'next', 'ok'], '1': ['next_none']}])}),
+             'N1': N('N1', params=[['a', ['rec', 'N0', 'N3', 4]]])}
+    prog = {'nodes': nodes, 'order': ['N0', 'N2', 'N3', 'N1'], 'input': 'N0', 'output': 'N1'}
+    prog['tags'] = sorted(gen.analyze(prog))
+    return prog
+
+
+def self_rec_carrier(rng):
+    """RecurrentSubGraph(start_node=N, dest_node=N): a one-node subgraph that re-executes itself."""
+    def N(i, **kw):
+        d = {'id': i, 'mode': rng.choice(gen.ALL_MODES), 'params': [], 'kind': 'plain', 'plan': {}}
+        d.update(kw)
+        return d
+    script = rng.choice([{'0': ['next'], '1': ['ok']}, {'0': ['next'], '1': ['next', 'ok']},
+                         {'0': ['next'], '1': ['next', 'next', 'next', 'next']}, {'0': ['ok']}])
+    nodes = {'N0': N('N0', plain_params=['x']),
+             'N2': N('N2', params=[['a', ['in', 'N0']]], kind='dest', recurrent=True, start_of=True,
+                     plan={'start': 'N2', 'ad_script': script}),
+             'N1': N('N1', params=[['a', ['rec', 'N2', 'N2', rng.choice([2, 3])]]])}
+    if rng.random() < 0.5:
+        nodes['N2']['retry'] = {'use_default': True}
+    prog = {'nodes': nodes, 'order': ['N0', 'N2', 'N1'], 'input': 'N0', 'output': 'N1'}
+    prog['tags'] = sorted(gen.analyze(prog))
+    return prog
+
+
 def work_generic(prop, tier, seed, widx, nworkers):
     """Single-run cases: program x inputs x schedules (C01 C03 C04 C05 C09 C10 C11 C14 C19)."""
     rng = random.Random(f'{prop}-{seed}-{widx}')
     nprog, nsched = BUDGET[prop][0 if tier == 'quick' else 1]
     acc = Acc(prop)
     feat = FEATURE.get(prop)
+    if prop in ('C03', 'C11'):
+        for _ in range(10 if tier == 'quick' else 100):
+            prog = input_start_carrier(rng) if rng.random() < 0.5 else self_rec_carrier(rng)
+            built = harness.Built(prog, events=True)
+            for s in range(3):
+                case = base_case(prog, [['r0', rng.choice([0, 1, 2, 3])]], rng)
+                acc.add(case, cases.run_case(case, built))
+                acc.counters['input_start_carrier_runs'] = acc.counters.get('input_start_carrier_runs', 0) + 1
+            built.close()
     for _ in range(nprog):
         prog = gen_prog(rng, prop)
         if prop == 'C04' and rng.random() < 0.7:
